@@ -211,6 +211,10 @@ func Imp(a, b *Term) *Term {
 	if IsFalse(b) {
 		return Not(a)
 	}
+	if b.Op == "forall" && len(b.Vars) > 0 && len(b.Pats) == 0 {
+		// A => forall v. B  ==  forall v. (A => B)   (bound names are globally unique)
+		return Forall(b.Vars, Imp(a, b.Args[0]))
+	}
 	return App("=>", SBool, a, b)
 }
 
@@ -225,6 +229,9 @@ func Eq(a, b *Term) *Term {
 		return BoolLit(a.lit.Cmp(b.lit) == 0)
 	}
 	if a.Sort == SBool {
+		if a.Op == "forall" || b.Op == "forall" || a.Op == "exists" || b.Op == "exists" {
+			return And(Imp(a, b), Imp(b, a))
+		}
 		if IsTrue(b) {
 			return a
 		}
